@@ -1,5 +1,18 @@
 ENGINES = [
- {"name": "E4-enum", "path": "/verif/go/c14 (and siblings)", "serves_properties": ["C14"], "kind_free_text": "bounded-exhaustive enumerators over finite input/program/configuration families, executed on the real code"},
+ {"name": "E1-coop", "path": "/verif/tools/vinstr + /verif/go/{vrt,vsync,vtime,vctx,vexec} + /verif/go/e1 (+ go_inpkg/e1, go/agentseq, go/c05real)",
+  "serves_properties": ["C01", "C02", "C03", "C04", "C05", "C08", "C10", "C15"],
+  "kind_free_text": "stateless model checker for the real scheduler/agent code: tools/vinstr rewrites sync/time/context/channel operations of scheduler.go, node.go, graph.go, agent.go (copies generated at check time from the working tree, compiled with go build -overlay) onto a cooperative token-passing runtime with a virtual clock; the explorer enumerates every choice sequence within a preemption bound PB(k) by prefix replay (DFS, level-1 subtree sharding across processes), child processes are the scripted executor go/vexec; a free-running twin of the same harness on un-instrumented packages (scripted executor and real sh) must end in an explored outcome (conformance)"},
+ {"name": "E2-opseq", "path": "/verif/go/{c06,c18,c20} (+ go_inpkg/c06)",
+  "serves_properties": ["C06", "C18", "C20"],
+  "kind_free_text": "explicit-state breadth-first search over operation sequences: states are canonical forms of a boring reference model, every transition replays the shortest path on a fresh real instance (JSON history store / DAG store / web API handlers) plus one operation and compares every query with the model; C06 adds reader/writer interleavings with the reader held by vtrace at each of its system calls"},
+ {"name": "E2-timestep", "path": "/verif/go/c09 + /verif/go_inpkg/c09 (in-package go test binary)",
+  "serves_properties": ["C09"],
+  "kind_free_text": "time-stepped exhaustive exploration of the real cron daemon (entry reader, watcher, tick loop) on an injected clock: every minute of calendar windows x every expression/form of the alphabet x restart/late-tick/guard families against a reference cron evaluator"},
+ {"name": "E3-vtrace", "path": "/verif/c/vtrace.c + /verif/go/{c07,c08,c16}",
+  "serves_properties": ["C07", "C08", "C16", "C06", "C18"],
+  "kind_free_text": "ptrace supervisor for the real binary / real store processes: numbers the relevant system calls of a history, then for every K kills the process at call K (optionally tearing the write to M bytes) or parks it there while another process acts; recovery / observation is compared with the reference model of acknowledged operations"},
+ {"name": "E4-enum", "path": "/verif/go/{c11,c12,c13,c14,c17,c19} (+ go_inpkg/c13, go_inpkg/c19)",
+  "serves_properties": ["C11", "C12", "C13", "C14", "C17", "C19", "C10"],
+  "kind_free_text": "bounded-exhaustive enumerators over finite input / program / configuration families (all digraphs to n=5, all documents over a byte alphabet to length 3 plus every single mutation of a maximal definition, the full header-grammar x path x method matrix, every string leaf x payload x entry point, ...), each member executed on the real code (real processes where the property is about processes)"},
 ]
-_PENDING = "check not built yet in this round (machinery under construction; see DESIGN.md build order) — not a claim that the technique cannot apply"
-NOT_APPLICABLE = [{"property_id": "C%02d" % i, "reason": _PENDING} for i in range(1, 21)]
+NOT_APPLICABLE = []
